@@ -122,6 +122,9 @@ class Network(nengo.Network, SupportDefaultsMixin, SpaOperatorMixin):
             if vocabs is None:
                 if seed is not None:
                     rng = np.random.RandomState(seed)
+                elif len(Network.context) > 0 and Network.context[0].seed is not None:
+                    # seeded plain nengo.Network as root of the model
+                    rng = np.random.RandomState(Network.context[0].seed)
                 else:
                     rng = None
                 vocabs = VocabularyMap(rng=rng)
